@@ -95,6 +95,7 @@ func (p P[T]) Replay(raw json.RawMessage) *Fail {
 
 // RunAll runs every property as a sub-test.
 func RunAll(t *testing.T, props ...Prop) {
+	ev.MuteLibraryStdout()
 	if ev.Replaying() {
 		t.Skip("replaying")
 	}
@@ -106,6 +107,7 @@ func RunAll(t *testing.T, props ...Prop) {
 
 // ReplayAll is the body of TestReplay: re-executes the case in $VERIF_REPLAY.
 func ReplayAll(t *testing.T, props ...Prop) {
+	ev.MuteLibraryStdout()
 	r := ev.LoadReplay()
 	if r == nil {
 		t.Skip("no VERIF_REPLAY")
